@@ -1,6 +1,7 @@
 package props
 
 import (
+	"time"
 	"fmt"
 	"math/rand"
 	"os"
@@ -38,6 +39,8 @@ type engRunner struct {
 	lab  *eng.Lab
 	disk *eng.Lab // same, on the disk-backed file system
 	nrun int
+	// clockAhead: applied to every scenario run while set (late-clock families)
+	clockAhead time.Duration
 	// which call kinds overlapped / pre-emption coverage
 }
 
@@ -97,6 +100,10 @@ func (e *engRunner) run(sc *eng.Scenario, family string, idx int) *eng.Result {
 	c := e.c
 	r := c.Rep
 	e.nrun++
+	if e.clockAhead != 0 && sc.ClockAhead == 0 {
+		sc.ClockAhead = e.clockAhead
+		sc.Name = "late clock (every file looks decades old): " + sc.Name
+	}
 	res := e.lab.Run(sc, "run")
 	r.Evaluations++
 	if res.SetupErr != nil {
@@ -528,7 +535,9 @@ func (e *engRunner) explicitRanges(idx int, every bool) int {
 		return idx
 	}
 	pairs := [][2]string{{"cr23", "cr01"}, {"cr23", "cr01,add"}, {"cr12", "cr01"}, {"cr01", "cr23,add"}, {"cr23", "add,cr01,add"},
-		{"cr13", "cr01"}, {"cr34", "cr02,add"}, {"cr22", "cr01"}, {"cr12", "cr34,add"}, {"cr24", "cr01,cr00,add"}}
+		{"cr13", "cr01"}, {"cr34", "cr02,add"}, {"cr22", "cr01"}, {"cr12", "cr34,add"}, {"cr24", "cr01,cr00,add"},
+		// a wider range arriving while a sub-range is locked (and the other way round)
+		{"cr23", "cr03"}, {"cr12", "cr03,add"}, {"cr03", "cr23"}, {"cr34", "cr04"}}
 	recs := []eng.Recipe{{0, 0, 0, 0}, {0, 0, 0, 0, 0}, {30, 0, 0, 10, 0}, {-1, -2, 0, 0, 0}}
 	for pi, pr := range pairs {
 		for ri, rec := range recs {
